@@ -142,11 +142,12 @@ def pfok_cmds(rng, tier, params):
     return out
 
 
-GF2_FIELDS = ["3,1,0,0", "5,2,0,0", "7,1,0,0", "9,4,0,0", "11,2,0,0", "13,4,3,1", "4,1,0,0", "8,4,3,1", "15,1,0,0"]
+# fields the library can build (m - k >= 64): the smallest irreducible trinomials / pentanomials of that shape and the DSTU fields
+GF2_FIELDS = ["71,6,0,0", "73,4,3,2", "79,9,0,0", "89,6,5,3", "163,7,6,3", "167,6,0,0", "173,10,2,1", "233,9,4,1", "431,5,3,1"]
 
 
 def gf2_cmds(tier):
-    return ["gf2 f=%s" % f for f in (GF2_FIELDS if tier != "quick" else GF2_FIELDS[:7])]
+    return ["gf2 f=%s cnt=%d" % (f, 12 if tier == "quick" else 100) for f in (GF2_FIELDS if tier != "quick" else GF2_FIELDS[:6])]
 
 
 def load_params(drv, env=None):
